@@ -3,6 +3,7 @@ package main
 import (
 	"encoding/json"
 	"fmt"
+	"net"
 	"os"
 	"os/exec"
 	"path/filepath"
@@ -46,6 +47,7 @@ type dcCase struct {
 	Stale    int       `json:"stale"`  // crash an earlier store of the same key at this point first (0 = none)
 	HadOld   bool      `json:"hadOld"` // a complete older entry (different contents) exists before the store
 	Threads  int       `json:"threads"`
+	Fault    string    `json:"fault"` // "": none | "vanished": the last listed output is removed before the store | "socket": a unix socket sits in the last directory output
 }
 
 var dcKey = []byte("12345678901234567890")
@@ -149,6 +151,20 @@ func dirCacheChild(args []string) error {
 	if _, err := dcSetup(base, &c, salt); err != nil {
 		return err
 	}
+	out := filepath.Join(base, "repo/plz-out/gen/pkg")
+	switch c.Fault {
+	case "vanished":
+		os.RemoveAll(filepath.Join(out, c.Outs[len(c.Outs)-1].Name))
+	case "socket":
+		for i := len(c.Outs) - 1; i >= 0; i-- {
+			if c.Outs[i].Kind == "dir" {
+				if l, err := net.Listen("unix", filepath.Join(out, c.Outs[i].Name, "zsock")); err == nil {
+					defer l.Close()
+				}
+				break
+			}
+		}
+	}
 	dc := cache.VerifNewDirCache(filepath.Join(base, "cache"), c.Compress)
 	dc.Store(dcTarget(), dcKey, dcNames(c.Outs))
 	return nil
@@ -193,7 +209,15 @@ func dirCacheCrash(args []string) error {
 		pb, _ := os.ReadFile(pf)
 		points := strings.Fields(string(pb))
 		// the reference tree is what a complete store+retrieve restores (round trip fidelity)
-		want := dcSnapshot(filepath.Join(base, "repo/plz-out/gen/pkg"), c.Outs)
+		wantDir := filepath.Join(base, "wantref")
+		os.MkdirAll(wantDir, 0775)
+		if err := dcMaterialise(wantDir, c.Outs, ""); err != nil {
+			return err
+		}
+		want := dcSnapshot(wantDir, c.Outs)
+		if c.Fault != "" {
+			points = nil // store-time faults are observed without a crash
+		}
 		oldDir := filepath.Join(base, "oldref")
 		os.MkdirAll(oldDir, 0775)
 		if err := dcMaterialise(oldDir, c.Outs, "OLD"); err != nil {
